@@ -37,9 +37,15 @@ type hist struct {
 	// openParked is set while an OPEN is parked inside the directory:
 	// the server has records the model only adds once the reply is in.
 	openParked bool
-	sits       map[string]int
-	hashParts  []string
-	steps      int
+	// renewVia lists clients that, when they are to renew their lease
+	// during a clock jump, do so with a state-bearing request of their
+	// own (READ, LOCKU, OPEN_DOWNGRADE) instead of RENEW / an empty
+	// SEQUENCE compound. The function reports whether the request was
+	// sent and answered.
+	renewVia  map[*client]func() bool
+	sits      map[string]int
+	hashParts []string
+	steps     int
 }
 
 type closedRef struct {
